@@ -487,10 +487,18 @@ package helper
 //@ loop#1 invariant !closed(rows)
 
 // ---- CSV files: a write replaces the file, an append keeps what is there (C11), relative to os.OpenFile flag semantics
+//@ func getReflectValue
+//@ trusted reflection (strconv / time formatting of one field): outside the verifier's subset
+
+//@ func Csv.writeHeaderToCsvWriter
+//@ loop#0 invariant len(header) == len(c.columns)
+
+// every row is encoded into a record with one position per column, in struct-field order (the order of the header)
 //@ func Csv.writeToWriter
-//@ trusted reflection-based encoding of rows (getReflectValue, encoding/csv.Writer): outside the verifier's subset
 //@ requires consumed(rows) == 0
-//@ ensures result == nil ==> consumed(rows) == len(rows)
+//@ ensures[C11,C03] result == nil ==> consumed(rows) == len(rows)
+//@ loop#0 invariant len(record) == len(c.columns)
+//@ loop#1 invariant len(record) == len(c.columns)
 
 //@ func Csv.WriteToFile
 //@ requires consumed(rows) == 0
